@@ -65,7 +65,14 @@ def main():
     rt.start_build()
     R = mcheck.MRun(vc.REPO, sc, 'codegen', max_depth=60)
     cands = K.k_type_conditions(R) + K.k_resolve_selection(R) + K.k_resolve_document(R) + K.k_resolve_selection_sets(R, 2 if tier == 'quick' else 3)
+    for F, S in ([(2, 2)] if tier == 'quick' else [(2, 2), (3, 2), (2, 3)]):
+        cands += K.k_typename_presence(R, F, S)
     cands = [c for c in cands if c['prop'] == 'C06']
+
+    def cyclic_spreads(c):
+        # witnesses without spread cycles first: they replay as plain documents
+        return sum(1 for i, fr in enumerate(c.get('fragments') or []) for s_ in fr['selections'] if s_.startswith('...F') and int(s_[4:]) <= i)
+    cands.sort(key=cyclic_spreads)
     replayed = 0
     seen = set()
     for c in cands:
@@ -78,6 +85,10 @@ def main():
             role = 'selection-set:' + ','.join(str(x) for x in c.get('failing_rule', []))[:20]
             schema = schema_for(c).replace('type Query { o0: O0 o1: O1 i0: I0 u0: U0 }', f"type Query {{ a: {c['a']} }}")
             query = f"query Q {{ a {{ {' '.join(c['selections'])} }} }}\nfragment F on {c['fragment_on']} {{ {c['fragment_field']} }}\n"
+        elif c['kernel'] == 'typename_presence':
+            import synth
+            role = 'typename:abstract-fragment-without-typename'
+            schema, query = synth.fragment_texts(c['fragments'], use=int(c['target'][1:]))
         elif c['kernel'] == 'type_conditions':
             role = f"type-condition:{'object' if c['parent'].startswith('O') else 'abstract'}-parent"
             schema, query = render_type_condition(c)
@@ -127,7 +138,7 @@ def main():
     coverage = dict(
         states=R.paths, transitions=R.vm.queries, traces_validated_against_impl=replayed, samples=R.samples[:6] + native_facts[:6],
         obligations=R.obligations, discharged=R.discharged,
-        bounds=dict(schema='2 objects, 1 interface, 1 union, symbolic implements / membership', positions='one spread under one parent; one field with empty / non-empty sub-selection; query::resolve end to end on two document templates (repeated spread under two symbolic parents; 2 [3] selections of symbolic kind and free names under a symbolic parent)'),
+        bounds=dict(schema='2 objects, 1 interface, 1 union, symbolic implements / membership', positions='validate_typename_presence on fragment graphs (2x2 [3x2, 2x3]); one spread under one parent; one field with empty / non-empty sub-selection; query::resolve end to end on two document templates (repeated spread under two symbolic parents; 2 [3] selections of symbolic kind and free names under a symbolic parent)'),
         outside_bounds='name lookups and the text parser (sampled natively above), deeper nesting of the invalid position, type conditions under field / inline-fragment parents',
         engine=R.evidence(), cross_check=cross, exhaustive=False)
     vc.write_evidence(PROP, 'model_checking', coverage,
